@@ -65,6 +65,13 @@ def run(tier, seed):
         cfg["kernel_args"] = dict(cfg["kernel_args"], delta=cfg["kernel_args"]["delta"] * scale)
         if cfg["kernel_functions"] == "geometric":
             cfg["kernel_args"]["power"] = 0.6
+        r = rng.random()
+        if r < 0.35:
+            cfg.update(min_occurrences=2, mask_string="[M]")
+        elif r < 0.5:
+            cfg.update(min_occurrences=2, mask_string="[M]", nullify_mask=True)
+        elif r < 0.6:
+            cfg.update(min_occurrences=2)
         check(R, [seq], cfg, timed=True, tag="timed")
     return R.result()
 
